@@ -2692,7 +2692,10 @@ func (data *Data) pruneIndexGroups(id uint64) error {
 					pos := sort.Search(len(rp.IndexGroups[idx].Indexes), func(i int) bool {
 						return rp.IndexGroups[idx].Indexes[i].ID >= id
 					})
-					rp.IndexGroups[idx].Indexes[pos].MarkDelete = true
+					// id ranges of different groups interleave after ExpandGroups: only mark the index that has this id
+					if pos < len(rp.IndexGroups[idx].Indexes) && rp.IndexGroups[idx].Indexes[pos].ID == id {
+						rp.IndexGroups[idx].Indexes[pos].MarkDelete = true
+					}
 				}
 				if rp.IndexGroups[idx].canDelete() {
 					rp.IndexGroups = append(rp.IndexGroups[:idx],
@@ -2718,7 +2721,10 @@ func (data *Data) pruneShardGroups(id uint64) error {
 					pos := sort.Search(len(rp.ShardGroups[idx].Shards), func(i int) bool {
 						return rp.ShardGroups[idx].Shards[i].ID >= id
 					})
-					rp.ShardGroups[idx].Shards[pos].MarkDelete = true
+					// id ranges of different groups interleave after ExpandGroups: only mark the shard that has this id
+					if pos < len(rp.ShardGroups[idx].Shards) && rp.ShardGroups[idx].Shards[pos].ID == id {
+						rp.ShardGroups[idx].Shards[pos].MarkDelete = true
+					}
 				}
 
 				if !rp.ShardGroups[idx].DeletedAt.IsZero() && rp.ShardGroups[idx].canDelete() {
